@@ -4,6 +4,10 @@ import (
 	"regexp"
 	"sort"
 	"strings"
+
+	"golang.org/x/tools/go/ssa"
+
+	"verifchecker/internal/engine"
 )
 
 func init() { register("C08", c08) }
@@ -28,6 +32,7 @@ func c08(c *Ctx) {
 	c.chunkAliasing("R08.9")
 	c.foreignKeysOnEveryConnection("R08.10")
 	c.conflictClausesLossless("R08.11", res)
+	c.batchLoopsSucceedOnlyAtTheEnd("R08.12")
 	R.Min("R08.1", "statement site evaluations", res.sites, 100)
 	R.Min("R08.3", "chunk-dependent statement sites", res.chunkSites, 12)
 }
@@ -105,4 +110,75 @@ func trunc(s string, n int) string {
 		return s[:n] + "..."
 	}
 	return s
+}
+
+// batchLoopsSucceedOnlyAtTheEnd (R08.12): a write over several statement batches reports success only after the last one.
+func (c *Ctx) batchLoopsSucceedOnlyAtTheEnd(rule string) {
+	P, R := c.P, c.R
+	R.Explain(rule, "any batch size: in the sqlite3 package a loop over the chunks of xslices.Chunk (one statement batch per iteration) cannot be left early into a success - from an edge that leaves the loop body other than through the loop condition no return of the nil error (nil constant, or a phi with a nil edge taken after the exit) is reachable.  A `return nil` inside the loop (meant as `continue`) silently drops every later batch: for more elements than the batching limit only the first chunks are written while the call reports success.")
+	n := 0
+	for _, f := range c.funcsInPkg("internal/db_impl/sqlite3", "internal/db_impl/sqlite3/v1", "internal/db_impl/sqlite3/v2", "internal/db_impl/sqlite3/v3") {
+		for _, h := range f.Blocks {
+			body := engine.LoopBody(h)
+			if body == nil {
+				continue
+			}
+			overChunks := false
+			for b := range body {
+				for _, in := range b.Instrs {
+					if ia, ok := in.(*ssa.IndexAddr); ok && engine.AnyBackward(ia.X, engine.FlowOpts{Loads: true}, func(x ssa.Value) bool {
+						call, ok := x.(*ssa.Call)
+						return ok && call.Call.StaticCallee() != nil && engine.BaseName(call.Call.StaticCallee()) == "Chunk"
+					}) {
+						overChunks = true
+					}
+				}
+			}
+			if !overChunks {
+				continue
+			}
+			n++
+			bad := earlyExitSuccess(P, f, h, body)
+			R.Check(bad == "", rule, c.name(f)+"|chunk loop", P.Pos(firstPosOf(h)), "no success after an early exit of the batch loop", "the loop over the statement batches can be left early into a nil-error return ("+bad+"): the remaining batches are never written although the operation reports success")
+		}
+	}
+	R.Min(rule, "loops over xslices.Chunk batches", n, 10)
+}
+
+// earlyExitSuccess: a return of the nil error is reachable from an edge that leaves the loop body elsewhere than at
+// the loop header.  Returns the position of such a return ("" if none).
+func earlyExitSuccess(P *engine.Prog, f *ssa.Function, h *ssa.BasicBlock, body map[*ssa.BasicBlock]bool) string {
+	bad := ""
+	for b := range body {
+		if b == h {
+			continue
+		}
+		for _, s := range b.Succs {
+			if body[s] {
+				continue
+			}
+			reach := engine.BlocksReachableFrom(s)
+			for _, ret := range engine.Returns(f) {
+				if !reach[ret.Block()] {
+					continue
+				}
+				lr := engine.LastResult(ret)
+				if lr == nil || lr.Type().String() != "error" {
+					continue
+				}
+				if engine.IsNilConst(lr) {
+					bad = P.Pos(ret.Pos())
+				}
+				if phi, ok := lr.(*ssa.Phi); ok {
+					for i, e := range phi.Edges {
+						pred := phi.Block().Preds[i]
+						if engine.IsNilConst(e) && (reach[pred] || pred == s) && !body[pred] {
+							bad = P.Pos(ret.Pos())
+						}
+					}
+				}
+			}
+		}
+	}
+	return bad
 }
